@@ -210,11 +210,20 @@ impl<S: BuildHasher + Clone + 'static> ExpirationMap<S> {
 
     pub fn try_cleanup(&self, now: Time) -> Result<Option<HashMap<u64, u64, S>>, CacheError> {
         let bucket_num = cleanup_bucket(now);
-        Ok(self
-            .buckets
-            .write()
-            .remove(&bucket_num)
-            .map(|bucket| bucket.map))
+        let mut m = self.buckets.write();
+        // Every bucket that is due, not only the one of the current second: a tick may
+        // come late, or less often than once per bucket.
+        let due: Vec<i64> = m.keys().filter(|b| **b <= bucket_num).copied().collect();
+        if due.is_empty() {
+            return Ok(None);
+        }
+        let mut keys = HashMap::with_hasher(self.hasher.clone());
+        for b in due {
+            if let Some(bucket) = m.remove(&b) {
+                keys.extend(bucket.map);
+            }
+        }
+        Ok(Some(keys))
     }
 
     pub fn hasher(&self) -> S {
